@@ -139,3 +139,26 @@ def minrun_monotone():
         ('fold', [z3.Select(B, i), 0 <= i, i < n, goal_window], minrun_def(B, n, m2, i)),
     ]
     return steps
+
+
+@lemma('minrun_props')
+def minrun_props():
+    """C08 consequences of the definition: no False -> True; m <= 1 keeps the array; m > n clears it; a kept position's
+    window consists of kept positions (the step that makes the filter idempotent)"""
+    A = z3.Array('A', z3.IntSort(), z3.BoolSort())
+    n, m, i, k, a0, c0 = z3.Ints('n m i k a0 c0')
+    steps = [
+        ('no-false-to-true', [minrun_def(A, n, m, i)], z3.Select(A, i)),
+        ('m-le-1-identity', [m <= 1, 0 <= i, i < n, z3.Select(A, i),
+                             # witness window [i, i+1)
+                             z3.BoolVal(True)],
+         z3.And(0 <= i, i < i + 1, i + 1 <= n, (i + 1) - i >= m,
+                z3.ForAll([k], z3.Implies(z3.And(i <= k, k < i + 1), z3.Select(A, k))))),
+        ('m-gt-n-clears', [m > n, n >= 0], z3.Not(minrun_def(A, n, m, i))),
+        # idempotence step: if [a0, c0) is a True window of length >= m around i, then every j in it has the same window
+        ('window-members-kept', [0 <= a0, a0 <= i, i < c0, c0 <= n, c0 - a0 >= m,
+                                 z3.ForAll([k], z3.Implies(z3.And(a0 <= k, k < c0), z3.Select(A, k))),
+                                 a0 <= z3.Int('j'), z3.Int('j') < c0],
+         z3.And(z3.Select(A, z3.Int('j')), 0 <= a0, a0 <= z3.Int('j'), z3.Int('j') < c0, c0 <= n, c0 - a0 >= m)),
+    ]
+    return steps
